@@ -4,6 +4,7 @@
 #include "common.hpp"
 #include "indep_nif.hpp"
 #include "gen.hpp"
+#include <malloc.h>
 
 namespace vf {
 
@@ -12,18 +13,34 @@ struct StrEv { std::streamsize off; uint32_t index; std::string text; NiStringRe
 
 struct SaveTrace : verif::SyncHooks {
 	std::ostream* os = nullptr;
-	struct Blk { size_t start = 0; NiObject* obj = nullptr; std::vector<RefEv> refs; std::vector<StrEv> strs; long fields = 0; };
+	struct Blk { size_t start = 0; NiObject* obj = nullptr; std::vector<RefEv> refs; std::vector<StrEv> strs; long fields = 0; std::string tokens; size_t objSize = 0; };
 	std::vector<Blk> blocks;
 	size_t endPos = 0;
 	long cur = -1;
 	bool sawEnd = false;
-	void Field(bool reading, verif::FieldKind, size_t, void*, const std::type_info*) override {
-		if (!reading && cur >= 0) blocks[(size_t)cur].fields++;
+	bool recordTokens = false;   // C08: typed field trace "kind.size.member-offset" per block
+	// member offset of a synced field inside the block object, or "h" for heap / stack storage (vector elements, temporaries)
+	std::string where(const void* addr) const {
+		const Blk& b = blocks[(size_t)cur];
+		const char* o = reinterpret_cast<const char*>(b.obj);
+		const char* a = reinterpret_cast<const char*>(addr);
+		if (b.objSize && a >= o && a < o + b.objSize) return std::to_string(a - o);
+		return "h";
+	}
+	void Field(bool reading, verif::FieldKind k, size_t sz, void* addr, const std::type_info*) override {
+		if (reading || cur < 0) return;
+		blocks[(size_t)cur].fields++;
+		if (recordTokens) blocks[(size_t)cur].tokens += " f" + std::to_string((int)k) + "." + std::to_string(sz) + "." + where(addr);
 	}
 	void Block(bool reading, uint32_t i, NiObject* o) override {
 		if (reading) return;
 		size_t pos = os ? (size_t)os->tellp() : 0;
-		if (o) { blocks.push_back({pos, o, {}, {}, 0}); cur = (long)blocks.size() - 1; (void)i; }
+		if (o) {
+			blocks.push_back({pos, o, {}, {}, 0, {}, 0});
+			cur = (long)blocks.size() - 1;
+			if (recordTokens) blocks.back().objSize = malloc_usable_size(dynamic_cast<void*>(o));
+			(void)i;
+		}
 		else { endPos = pos; cur = -1; sawEnd = true; }
 	}
 	void BlockRef(bool reading, NiRef* r, const std::type_info* t, std::streamsize off) override {
@@ -31,12 +48,21 @@ struct SaveTrace : verif::SyncHooks {
 		std::string n = demangle(t->name());
 		if (!n.empty() && n.back() == '*') n.pop_back();
 		blocks[(size_t)cur].refs.push_back({off, r->index, n, r});
+		if (recordTokens) blocks[(size_t)cur].tokens += " r." + n + "." + where(r);
 	}
 	void StringRef(bool reading, NiStringRef* s, std::streamsize off) override {
 		if (reading || cur < 0) return;
 		blocks[(size_t)cur].strs.push_back({off, s->GetIndex(), s->get(), s});
+		if (recordTokens) blocks[(size_t)cur].tokens += " s." + where(s);
 	}
 };
+
+// one line per block: "<type>:<tokens>" — the typed-field trace of a raw save (C08)
+inline std::vector<std::string> traceLines(const SaveTrace& tr) {
+	std::vector<std::string> out;
+	for (auto& b : tr.blocks) out.push_back(std::string(b.obj->GetBlockName()) + ":" + b.tokens);
+	return out;
+}
 
 inline std::string saveTraced(NifFile& n, bool raw, SaveTrace& tr) {
 	std::ostringstream os(std::ios::binary);
